@@ -38,15 +38,17 @@ package api
 //@ modset PUBLISH = evn, ev, dn, dh, dp, dsp, world, spine.Events.handlers, spawn, outmisc, ntn, nts, ntsrc, ntdst, ntcmd, nsn, nsdev, nsaddr, nscmd
 // results of those removals, and the cascade that follows a removal (C06): reres[k] the entity the k-th removal returned;
 // casn cascade calls so far; caskind[k] 1 = RemoveSubscriptionsForEntity, 2 = RemoveBindingsForEntity, 3 = CleanRemoteEntityCaches;
-// casent[k] / casaddr[k] the entity / entity address handed to it; casat[k] the number of removals requested before it
+// casent[k] / casaddr[k] the entity / entity address handed to it; casat[k] the number of removals requested before it;
+// renn the number of removals that found an entity
 //@ ghost reres map[int]api.EntityRemoteInterface
+//@ ghost renn int
 //@ ghost casn int
 //@ ghost caskind map[int]int
 //@ ghost casent map[int]api.EntityRemoteInterface
 //@ ghost casaddr map[int]*model.EntityAddressType
 //@ ghost casat map[int]int
 //@ modset CASCADE = reres, casn, caskind, casent, casaddr, casat
-//@ modset DISCOVERY = reres, casn, caskind, casent, casaddr, casat, ren, redev, readdr, cells(model.NodeManagementDetailedDiscoveryDataType), cells(model.NetworkManagementEntityDescriptionDataType), cells(model.NodeManagementDetailedDiscoveryEntityInformationType), cells(model.NodeManagementDetailedDiscoveryFeatureInformationType), cells(model.NetworkManagementStateChangeType), cells(model.EntityTypeType)
+//@ modset DISCOVERY = reres, renn, casn, caskind, casent, casaddr, casat, ren, redev, readdr, cells(model.NodeManagementDetailedDiscoveryDataType), cells(model.NetworkManagementEntityDescriptionDataType), cells(model.NodeManagementDetailedDiscoveryEntityInformationType), cells(model.NodeManagementDetailedDiscoveryFeatureInformationType), cells(model.NetworkManagementStateChangeType), cells(model.EntityTypeType)
 
 // Assumed contracts of the api interfaces, used at interface call sites.
 // "pure": no side effect; the result is a function of the receiver, the arguments and the
@@ -200,8 +202,8 @@ package api
 //@ iface api.DeviceRemoteInterface.AddEntityAndFeatures
 //@   modifies world, held
 //@ iface api.DeviceRemoteInterface.RemoveEntityByAddress
-//@   ensures ren == old(ren) + 1 && redev == store(old(redev), old(ren), self) && readdr == store(old(readdr), old(ren), addr) && reres == store(old(reres), old(ren), result)
-//@   modifies world, held, ren, redev, readdr, reres
+//@   ensures ren == old(ren) + 1 && redev == store(old(redev), old(ren), self) && readdr == store(old(readdr), old(ren), addr) && reres == store(old(reres), old(ren), result) && renn == old(renn) + ite(result != nil, 1, 0)
+//@   modifies world, held, ren, redev, readdr, reres, renn
 //@ iface api.DeviceRemoteInterface.CheckEntityInformation pure ensures[C05] accepted-is-addressed: result == nil ==> entity.Description != nil && entity.Description.EntityAddress != nil && len(entity.Description.EntityAddress.Entity) > 0
 //@ iface api.DeviceLocalInterface.CleanRemoteEntityCaches
 //@   ensures casn == old(casn) + 1 && caskind == store(old(caskind), old(casn), 3) && casaddr == store(old(casaddr), old(casn), remoteAddress) && casat == store(old(casat), old(casn), ren)
